@@ -254,8 +254,9 @@ def c07_update(report, cfg):
         cname = "Compressor512" if cols == 8 else "Compressor1024"
         ht = "groestl_aesni::%s" % name
         upd = find(f, r"^<groestl_aesni::%s as digest::Update>::update::<&\[u8\]>$" % name)
-        for p in (0, 1, bb - 1):
-            for ln in (0, 1, bb - p - 1 if bb - p - 1 > 1 else 2, bb - p, bb, 2 * bb + 3):
+        for p in (0, 1, 17, bb - 1):
+            # ... and long pieces (a threshold-based fast path would start somewhere): > 4 and > 8 blocks
+            for ln in (0, 1, bb - p - 1 if bb - p - 1 > 1 else 2, bb - p, bb, 2 * bb + 3, 4 * bb + bb - 14, 8 * bb + 3):
                 ikey = "%s::update pos=%d len=%d@%s" % (name, p, ln, cfg)
                 total += 1
 
